@@ -48,8 +48,12 @@ package main
 // one syntax tree, and struct values held by elements of untyped lists / maps: c10_r5.go.
 // Unsigned / byte-typed containers, the conversion matrix (phase "conv"), p[i] = p[i] and
 // `+` with a map on the left: c10_r6.go.
+// Containers that travel (arguments of direct / deferred / go calls, every way a value is
+// handed on: phase "pass"), maps and slices of another type stored into typed slots and what
+// the slot's content is for the names bound to it afterwards (phase "slots"), nil-ness: c10_r7.go.
 
 import (
+	"context"
 	"fmt"
 	"math"
 	"reflect"
@@ -289,6 +293,9 @@ func c10Conv(v interface{}, t reflect.Type) (out reflect.Value, st int, fresh bo
 		return out, c10CvExcl, false // Go: string([]byte) / string([]rune)
 	case sk == reflect.Slice && tk == reflect.Slice:
 		// Go cannot convert between slice types; anko documents an element-wise copy. Both accepted.
+		if rv.IsNil() {
+			return reflect.Zero(t), c10CvEither, true // a nil slice converted element by element is the nil slice (Go: []T(nil) is nil)
+		}
 		n := rv.Len()
 		res := reflect.MakeSlice(t, n, n)
 		for i := 0; i < n; i++ {
@@ -300,7 +307,7 @@ func c10Conv(v interface{}, t reflect.Type) (out reflect.Value, st int, fresh bo
 		}
 		return res, c10CvEither, true
 	case sk == reflect.Map && tk == reflect.Map:
-		return out, c10CvExcl, false
+		return c10ConvMap(rv, t) // c10_r7.go
 	}
 	return out, c10CvErr, false
 }
@@ -582,11 +589,13 @@ type c10Hist struct {
 	nErr  int
 	dead  bool
 	facts []c10Factory // script functions returning a literal (c10_lit.go)
+	host  *c10R7Host   // what the host functions of c10_r7.go received
 }
 
 func newC10Hist(c *wk.Case) *c10Hist {
 	h := &c10Hist{c: c, env: ank.NewCoreEnv(), vars: map[string]*c10Var{}}
 	c10R6Bind(h.env) // host-typed numbers and the type names int8 / int16 / uint16 (c10_r6.go)
+	c10R7Bind(h)     // host functions that receive / return containers (c10_r7.go)
 	o := ank.Exec(h.env, c10Prelude)
 	if o.Err != nil || o.Panicked {
 		c.Inconclusive("prelude-failed", ank.ErrText(o.Err)+o.PanicVal, c10Prelude)
@@ -600,7 +609,7 @@ const c10Prelude = `func c10set(x, i, v) { x[i] = v }
 func c10app(x, v) { x += v; return x }
 func c10del(x, k) { delete(x, k) }
 func c10get(x, i) { return x[i] }
-func c10sl(x, i, j) { return x[i:j] }` + c10PreludeR5
+func c10sl(x, i, j) { return x[i:j] }` + c10PreludeR5 + c10PreludeR7
 
 func c10KeyValue(k interface{}, kt reflect.Type) reflect.Value {
 	if k == nil {
@@ -722,6 +731,7 @@ type c10Op struct {
 	vals    func() []reflect.Value // acceptable results (evaluated after commit)
 	itag    string
 	pre     func() // host-side action run before the source (binding a host value)
+	waits   bool   // the source starts a goroutine and waits for its signal
 }
 
 func (h *c10Hist) input(op *c10Op) map[string]interface{} {
@@ -767,7 +777,23 @@ func (h *c10Hist) exec(op *c10Op) bool {
 	if op.pre != nil {
 		op.pre()
 	}
-	o := ank.Exec(h.env, op.src)
+	var o ank.Out
+	if op.waits {
+		// the source waits for a goroutine it started (c10_r7.go): a wait that never ends is
+		// cut off and reported as inconclusive, never judged
+		ctx, cancel := context.WithTimeout(context.Background(), c10GoWaitLimit)
+		o = ank.ExecCtx(ctx, h.env, op.src)
+		expired := ctx.Err() != nil
+		cancel()
+		if expired {
+			h.log = append(h.log, op.src)
+			c.Inconclusive("go-call-never-signalled", "op `"+op.src+"`: "+ank.ErrText(o.Err), h.input(op))
+			h.dead = true
+			return false
+		}
+	} else {
+		o = ank.Exec(h.env, op.src)
+	}
 	h.log = append(h.log, op.src)
 	c.Events(1)
 	c.Tag("op:"+op.opk+":"+op.ck, "place:"+op.pk)
@@ -1009,7 +1035,7 @@ func (h *c10Hist) opWrite(p c10Place, ix c10Idx, v c10Val, viaCall bool) *c10Op 
 	op, cont := h.newOp(opk, p, src)
 	op.itag = ix.tag
 	op.either = ix.numStr
-	if !cont.IsValid() {
+	if !cont.IsValid() || (cont.Kind() != reflect.Slice && cont.Kind() != reflect.String) {
 		return nil
 	}
 	atLen := ix.isInt && ix.n == int64(cont.Len())
@@ -1061,7 +1087,7 @@ func (h *c10Hist) opWrite(p c10Place, ix c10Idx, v c10Val, viaCall bool) *c10Op 
 		return op
 	case reflect.Slice:
 		cv, st, fresh := c10Conv(v.v, cont.Type().Elem())
-		if st == c10CvExcl || (st == c10CvEither && fresh) {
+		if st == c10CvExcl || (st == c10CvEither && fresh && !c10FreshStorable(cv, atLen)) {
 			return nil
 		}
 		if st == c10CvErr {
@@ -1076,9 +1102,20 @@ func (h *c10Hist) opWrite(p c10Place, ix c10Idx, v c10Val, viaCall bool) *c10Op 
 		op.mut = true
 		if st == c10CvEither {
 			op.either, op.why = true, c10WhyLossy // a wrapping integer / a string read as a character: the value, or an error
+			if fresh {
+				op.why = c10WhyContainerConv // a map / slice of another type: the element-wise converted container, or an error (c10_r7.go)
+			}
 		}
 		if !atLen {
-			op.commit = func(reflect.Value) { cont.Index(int(ix.n)).Set(cv) }
+			op.commit = func(reflect.Value) {
+				if fresh && cv.Kind() == reflect.Slice {
+					// the capacity of a converted copy is not specified: adopt the live one
+					if l := h.lget(p); l.IsValid() && l.Kind() == reflect.Slice && int(ix.n) < l.Len() {
+						cv = c10AdoptCap(cv, c10Unwrap(l.Index(int(ix.n))))
+					}
+				}
+				cont.Index(int(ix.n)).Set(cv)
+			}
 			return op
 		}
 		if p.sel == 's' {
@@ -1211,7 +1248,7 @@ func (h *c10Hist) opAppend(form, dst string, p c10Place, rhs c10Val) *c10Op {
 		case c10CvExcl:
 			return nil
 		case c10CvEither:
-			if fresh {
+			if fresh && !c10FreshStorable(cv, true) {
 				return nil
 			}
 			lossy = true
@@ -1369,7 +1406,7 @@ func (h *c10Hist) opSlice(dst string, p c10Place, lo, hi, mx *c10Idx, viaCall bo
 // opLen: `len(p)`.
 func (h *c10Hist) opLen(p c10Place) *c10Op {
 	op, cont := h.newOp("len", p, "len("+p.src()+")")
-	if !cont.IsValid() || cont.Kind() == reflect.Struct {
+	if !cont.IsValid() || (cont.Kind() != reflect.Slice && cont.Kind() != reflect.Map && cont.Kind() != reflect.String) {
 		return nil
 	}
 	op.hasVal, op.vals = true, c10One(reflect.ValueOf(int64(cont.Len())))
@@ -1661,7 +1698,7 @@ func (h *c10Hist) opMapWrite(p c10Place, k, v c10Val, member, viaCall bool) *c10
 	}
 	op.itag = "key:" + k.tag
 	cv, vst, vfresh := c10Conv(v.v, cont.Type().Elem())
-	if vst == c10CvExcl || (vst == c10CvEither && vfresh) {
+	if vst == c10CvExcl || (vst == c10CvEither && vfresh && !c10FreshStorable(cv, true)) {
 		return nil
 	}
 	if vst == c10CvErr {
@@ -1676,6 +1713,9 @@ func (h *c10Hist) opMapWrite(p c10Place, k, v c10Val, member, viaCall bool) *c10
 	op.mut = true
 	if st == c10CvEither || vst == c10CvEither {
 		op.either, op.why = true, c10WhyLossy
+		if vst == c10CvEither && vfresh {
+			op.why = c10WhyContainerConv
+		}
 	}
 	if cont.IsNil() && p.sf != "" {
 		return nil // the new map would have to be assigned to an unassignable field: kept out
@@ -1782,6 +1822,8 @@ func (h *c10Hist) opFieldWrite(root, f string, v c10Val) *c10Op {
 		op.either, op.why = true, "slice-to-slice-conversion"
 		if !fresh {
 			op.why = c10WhyLossy
+		} else if cv.Kind() == reflect.Map {
+			op.why = c10WhyContainerConv
 		}
 	}
 	op.mut = true
@@ -1936,6 +1978,9 @@ func (g *c10Gen) valFor(t reflect.Type) c10Val {
 	}
 	if v, ok := g.r6Val(t); ok {
 		return v // the ends of the numeric ranges, strings for byte / rune slots (c10_r6.go)
+	}
+	if v, ok := g.r7MapVal(t); ok {
+		return v // a map of ANOTHER type for a typed map slot (c10_r7.go)
 	}
 	switch t {
 	case c10I64T:
@@ -2294,6 +2339,9 @@ func (g *c10Gen) place() c10Place {
 			}
 		}
 	case reflect.Map:
+		if ep, ok := g.r7MapEntryPlace(root, cur); ok {
+			return ep // an entry of a typed map of maps (c10_r7.go)
+		}
 		if sp, ok := g.structElemPlace(root, cur); ok {
 			return sp
 		}
@@ -2410,6 +2458,9 @@ func (g *c10Gen) initVal(name string) c10Val {
 		}
 		return c10Val{`map[string]float64{"k1": 1.5}`, map[string]float64{"k1": 1.5}, "tmap-lit"}
 	}
+	if v, ok := g.r7InitVal(name); ok {
+		return v // a map of maps, a slice of maps (c10_r7.go)
+	}
 	return g.r6InitVal(name)
 }
 
@@ -2431,6 +2482,13 @@ func (g *c10Gen) op() *c10Op {
 	if g.rn(100) < 4 {
 		// p[i] = p[i]; `+` with a map on the left (c10_r6.go)
 		if op := g.r6Op(); op != nil {
+			return op
+		}
+	}
+	if g.rn(100) < 6 {
+		// a container that travels (arguments of direct / deferred / go calls, values), stores on
+		// both sides of a deferred / go call, nil-ness (c10_r7.go)
+		if op := g.r7Op(); op != nil {
 			return op
 		}
 	}
@@ -3319,13 +3377,17 @@ func init() {
 			}
 			return fw.Plan{
 				Level: "exploration",
-				Rule:  "one evaluation = one history: a fresh environment, 3-8 container variables (one of 14 profiles) and 10-40 operations, each its own vm.Execute call; after every operation every variable is fetched with env.Get and walked against a native Go model (types, contents, len, cap, storage sharing through a live<->model element-address bijection); containers include typed numeric slices of eight element types (int64, float64, int32, byte, float32, uint64, uint, uint32), maps with byte / uint64 keys and uint64 values, a struct with a field of every numeric kind the script can name, nil typed maps / nil typed slices (zero elements of make([]map..) / make([][]T..), names and struct fields bound to nil) and slice expressions as the left operand of a store; struct values of five shapes side by side (the same field names at other positions, a two-field shape, anonymous Go structs bound by the host through a pointer; fields of other shapes are unknown fields); in 40% of the histories with an untyped slice 1-2 script functions returning a random nested literal (lists, maps, typed literals, depth <= 3) are defined once and called again and again, and loops evaluate a literal in their body 2-4 times with in-place stores (`=`, `+= 1`) into inner containers - the Go model builds fresh storage for every evaluation of a literal; about 5% of the operations execute ONE assignment statement with a nested target once more with other operands ((x[i])[j] = v, x[i][j] = v, (x[i]).k1 = v, (x[i])[j] += 1, (x[i])[j]++, with and without parentheses around the container): ten script functions of the prelude that every history calls again and again on the elements of its lists of lists / maps / strings, and loops of 2-4 passes over one such statement (four spellings) - the k-th execution stores into the container its operands designate at the k-th execution; struct values are put into untyped lists and maps (`a[i] = c10mkS(ts[i:j], e)`: the slice field shares storage, and often spare capacity, with a variable) and their slice / map fields are containers for every operation; an operation the Go model rejects must report an error and leave every container unchanged. Values stored into a numeric slot are drawn in 30-75% of the draws from the ends of the kinds' ranges (2^7..2^64 +- a little as integers and floats, floats in [2^63, 2^64), negative fractions, host-typed numbers no literal spells such as uint64 above MaxInt64 and MinInt64), byte / rune slots also get strings (ASCII, empty, several characters, one character of 2-3 bytes, single bytes >= 0x80 cut out of a string with s[i:i+1]); 4% of the operations are `p[i] = p[i]` (an in-range index changes nothing) or `+` / `+=` with a map as the left operand (an error). Phase conv is the full matrix: 14 slot kinds (uint64, uint, uint32, uint16, byte, int64, int, rune, int16, int8, float64, float32, string, bool) x 5 groups of values (28 integers, 42 floats, 19 strings, 10 host-typed numbers, 7 values of other kinds) x 13 ways of storing (index store plain / through a call / through a slice expression / below an untyped list and through the shared nested-target statements, store at index len with and without spare capacity, `+=`, `= +`, `+ [v, v]`, append as an expression and through a call, map value by index / member / call, map key, struct field, slice in a struct field, typed slice and map literals with the value as element, value and key), each on fresh containers followed by a read-back; the signature names slot kind and value kind. A history is non-trivial when >=3 operations ran and >=1 mutated a container; distinct = distinct operation text.",
+				Rule:  "one evaluation = one history: a fresh environment, 3-8 container variables (one of 17 profiles) and 10-40 operations, each its own vm.Execute call; after every operation every variable is fetched with env.Get and walked against a native Go model (types, contents, len, cap, storage sharing through a live<->model element-address bijection); containers include typed numeric slices of eight element types (int64, float64, int32, byte, float32, uint64, uint, uint32), maps with byte / uint64 keys and uint64 values, a struct with a field of every numeric kind the script can name, nil typed maps / nil typed slices (zero elements of make([]map..) / make([][]T..), names and struct fields bound to nil) and slice expressions as the left operand of a store; struct values of five shapes side by side (the same field names at other positions, a two-field shape, anonymous Go structs bound by the host through a pointer; fields of other shapes are unknown fields); in 40% of the histories with an untyped slice 1-2 script functions returning a random nested literal (lists, maps, typed literals, depth <= 3) are defined once and called again and again, and loops evaluate a literal in their body 2-4 times with in-place stores (`=`, `+= 1`) into inner containers - the Go model builds fresh storage for every evaluation of a literal; about 5% of the operations execute ONE assignment statement with a nested target once more with other operands ((x[i])[j] = v, x[i][j] = v, (x[i]).k1 = v, (x[i])[j] += 1, (x[i])[j]++, with and without parentheses around the container): ten script functions of the prelude that every history calls again and again on the elements of its lists of lists / maps / strings, and loops of 2-4 passes over one such statement (four spellings) - the k-th execution stores into the container its operands designate at the k-th execution; struct values are put into untyped lists and maps (`a[i] = c10mkS(ts[i:j], e)`: the slice field shares storage, and often spare capacity, with a variable) and their slice / map fields are containers for every operation; an operation the Go model rejects must report an error and leave every container unchanged. Values stored into a numeric slot are drawn in 30-75% of the draws from the ends of the kinds' ranges (2^7..2^64 +- a little as integers and floats, floats in [2^63, 2^64), negative fractions, host-typed numbers no literal spells such as uint64 above MaxInt64 and MinInt64), byte / rune slots also get strings (ASCII, empty, several characters, one character of 2-3 bytes, single bytes >= 0x80 cut out of a string with s[i:i+1]); 4% of the operations are `p[i] = p[i]` (an in-range index changes nothing) or `+` / `+=` with a map as the left operand (an error). Phase conv is the full matrix: 14 slot kinds (uint64, uint, uint32, uint16, byte, int64, int, rune, int16, int8, float64, float32, string, bool) x 5 groups of values (28 integers, 42 floats, 19 strings, 10 host-typed numbers, 7 values of other kinds) x 13 ways of storing (index store plain / through a call / through a slice expression / below an untyped list and through the shared nested-target statements, store at index len with and without spare capacity, `+=`, `= +`, `+ [v, v]`, append as an expression and through a call, map value by index / member / call, map key, struct field, slice in a struct field, typed slice and map literals with the value as element, value and key), each on fresh containers followed by a read-back; the signature names slot kind and value kind. Containers that TRAVEL (c10_r7.go): phase pass = 17 container kinds (untyped list with and without spare capacity, typed slice, slice expressions, list / map held by a list element, untyped / empty / typed map, slice and map in a struct field, map in an element of a typed slice of maps - stored as it is and converted from {} -, nil typed map, slice in the field of a struct value held by a list element, string) x 38 ways of reaching another holder x 4 forms: as the argument of a call - script functions of 1, 3 and 5 parameters (direct-call path and reflect.Call path), variadic tail (first / second position) and `p...` spread, anonymous functions of one and two parameters, functions held by a list element / a map entry, Go functions of the host with an interface parameter, a parameter of exactly the container's type, a variadic tail and a spread - called directly, deferred (`defer f(p)` inside an anonymous function, a named function, a function value, an if block, a loop body) and started with go (the callee signals on a channel, the caller waits: no timing); and as a value - parentheses, multiple assignment (both positions), var, both arms of ?:, ??, list / map literal and out again (member and index), channel send / receive, for-in over a list / a map, result of a script function (one / two results), of a closure, of a closure over a parameter, assignment inside a closure / a deferred closure / a go-started closure / a switch case / an if block, a typed channel, result of a Go function. The receiver is bound to a name; the Go model binds that name to the SAME slice header / map, and the walker's address bijection shows at once whether storage is still shared; stores and reads through both holders follow. later-store operations (7 callee kinds x defer (3-5 wrappers) / go x 8 index pairs per container kind): the callee of a deferred / go call stores l[i] = v and reads l[j] when it runs, the caller stores p[j] = w AFTER the defer / go statement (for go: the goroutine waits on a channel for the caller's store, the caller for the goroutine's): both stores must be in the one container, the callee must read w. Phase slots = 12 kinds of typed MAP slot (element of make([]map[string]int64, n) stored by index / through a call / at index len / by += / through a slice expression, entry of a map of maps by member / index / call, map field of a script-made and of a host struct, inside a typed slice / map literal) x 17 sources (empty and non-empty untyped literal, a literal with converting values, names bound to an empty / non-empty / emptied untyped map, empty make / literal / names of another map type, names of the slot's own type, nil, a nil map of another type directly and through a name, two unconvertible maps) x 6 variants: store, `slot == nil` / `!= nil`, len, the slot's content bound to a name (14 of the ways above in rotation, every call form), a key stored through that name (index / member / through a call) and read through the slot, a second name, a store through the slot expression read through both names, delete through a name, a store into the source (a map of another type shares nothing with the slot, one of the slot's type IS the slot's map); the Go parameter map[string]int64 of a host function handed each literal source; slice slots (element of make([][]int64, n), slice field) x 9 sources (nil, [], lists, nil slices of another type directly and through a name, an empty []float64 with capacity, the slot's own type). In the random histories 6% of the operations are a pass (any way / form / place), a later-store or `p == nil` / `p != nil`; values drawn for a typed map slot are in 60% of the draws maps of ANOTHER type ({}; one-entry literals; make(map[string]interface); names bound to untyped / other-typed maps whatever they hold; nil elements of slices of maps of another type; an unconvertible map); maps of maps and slices of map[string]int64 are container variables (3 more profiles), entries of a typed map of maps are places. A history is non-trivial when >=3 operations ran and >=1 mutated a container; distinct = distinct operation text.",
 				Assumptions: []string{
 					"Go's own slice/map/string operations (through reflect) are the reference; capacity after a growing append is adopted from the live object",
 					"numeric-string indices only as decimal numerals with a leading zero (accepted: error, or what the integer does); not generated: float/bool indices, reslice high bound in (len,cap], struct value copies, `in` on maps/strings, multi-byte string-position stores, int->string and nil->typed-slot stores",
 					"accepted both ways: []interface{} / []float64 stored into a []int64 field (element-wise copy or error); missing key of a typed map reads nil or the zero value; a key a typed map cannot hold reads nil or errors; a store of a convertible value into a NIL typed map (error leaving everything unchanged, or a new map with the converted value bound to the place)",
 					"typed slots: a number converts as Go's T(v) of a non-constant does - a float is truncated towards zero and must arrive exactly when the slot type can represent the truncated value (uint64(1e19), uint64(-0.5) = 0, int64(-2^63)); not generated: a float beyond the slot's range, NaN, a float64 beyond float32 (Go: implementation-defined), []byte/[]rune->string; an INTEGER the slot type cannot represent: the wrapped value (Go, non-constant) or an error that changes nothing (Go, constant) - nothing else",
 					"a string offered to a byte / rune slot (Go has no such conversion; the library documents reading a one-character string as that character; the statement is silent): always accepted is an error that changes nothing; the only success accepted is the lossless one - a one-byte string is exactly that byte (whatever the byte: \"é\"[0:1] is 0xC3), one well-formed character of several bytes is that character if the slot can hold it (U+00E9 in a byte, any in a rune), the empty string is zero; a character above U+00FF into a byte slot and a string of several characters must fail; not generated: a single byte >= 0x80 into a rune slot (0xC3 and U+FFFD both defensible); converting map keys only on stores",
+					"a MAP (or, for in-range index stores and field stores, a SLICE) of another type offered to a typed slot: Go has no conversion between map / slice types, so an error that changes nothing is always accepted; the only success accepted is the element-wise conversion the library documents: a NEW container (no storage shared with the source; capacity of a converted slice adopted from the live object) holding the entries converted as single stores would convert them, nil exactly when the source is nil (Go's conversions keep nil-ness) - afterwards an ordinary reference value for every name / parameter bound to the slot's content; not generated: sources whose keys need a lossy or excluded conversion (an int key for a string-keyed map) or collide after conversion, values that convert lossily, converted slices inside converted maps, converted slices appended / stored at index len / stored as map values; a map of another type handed to a Go parameter map[string]int64: an error, or the callee sees a non-nil map it can store into (what the caller's map shows afterwards is not judged: the conversion is a copy)",
+					"`p == nil` / `p != nil` is Go's answer on maps everywhere (make and literals are non-nil, zero elements of make([]map.., n), fields of host structs and slots assigned nil are nil, a map the script creates on the first store into a nil map is non-nil) and on slices of length > 0; on a slice of length 0 only directly after the store in phase slots (the nil-ness of an empty slice that went through slicing / appending is Go's and not promised by the statement)",
+					"containers that travel: the receiver holds the same slice header / map whatever the way and the call form; Go's `defer f(a)` / `go f(a)` evaluate the slice header at the statement, element stores made afterwards on either side are visible on the other; not judged: which list a deferred / go call sees when the NAME is rebound after the statement (argument evaluation time is not a container rule), a typed slice spread into a script function's variadic tail and any container handed to a Go parameter of another type (conversions Go does not have: the copy is legitimate), defer at the top level of a script, a defer statement inside an if block / loop body when the order of the deferred store and a later store of the caller matters, two unordered stores of a go-started Go callee and the caller into one map or one element; a go call that never signals is cut off after 120 s and reported inconclusive (never judged)",
+					"`m + x` / `m += x` with a map as the LEFT operand is an ill-typed operand for every x (list, map, number, string, boolean, nil): an error, nothing rebound; `x + m` with a scalar on the left is C05's. A store through a field of a field of a struct VALUE held by a list element / map entry (a[0].F.G = v, m.k.F.H = s, += and ++ on such a target) is refused like a[0].X = v and changes nothing (fixed history c10FixedStructOfStruct)",
 					"kept out until /repo is repaired (C10-r6-genuine.md): `in` between a negative needle and unsigned 64-bit elements above MaxInt64 (c10PendingFix_InUnsignedWraps), s[i] = s[i] on a byte >= 0x80 of a string (c10PendingFix_StringHighByteRoundTrip), `+` / `+=` between two maps (c10PendingFix_MapPlusMap; map + list is generated and must fail), a store at index len through the field of a struct element whose first spare slot is the list element holding that struct (c10PendingFix_AppendOntoOwnElement; fixed history c10FixedAppendOwnSlot holds the map form for after the repair)",
 					"`in` with a numeric needle of another Go type than the elements is judged only when the needle denotes a number that no element denotes (then it must be false); nil against a nil typed slice/map element is not judged",
 					"a store at index len through the field of a struct VALUE held by a list / map element (`a[0].C[len] = v`; Go cannot assign that field) is accepted as an error that leaves every container unchanged - including the spare capacity a longer slice shares - or as Go's `_ = append(a[0].C, v)`; not generated through such a field: `+=` / `= +` (append expression and failing assignment pull in different directions), stores into a string field, stores into a nil map field; struct values in TYPED maps and Go array values handed in by the host are not generated",
@@ -3338,6 +3400,8 @@ func init() {
 				Phases: []fw.Phase{
 					{Name: "fixed", Cases: len(c10Fixed), Chunk: len(c10Fixed), TimeoutS: 300},
 					{Name: "enum", Cases: c10EnumCases(), Chunk: 4, Exhaust: true, TimeoutS: 600},
+					{Name: "slots", Cases: c10SlotCases(), Chunk: 4, TimeoutS: 600},
+					{Name: "pass", Cases: c10PassCases(), Chunk: 6, TimeoutS: 600},
 					{Name: "random", Cases: nRand, Chunk: 250, TimeoutS: 900},
 					{Name: "conv", Cases: c10ConvCases(), Chunk: 5, TimeoutS: 600, MemMB: 3072, Jobs: 4},
 				},
@@ -3351,6 +3415,10 @@ func init() {
 				c10RunEnum(c)
 			case "conv":
 				c10RunConv(c)
+			case "slots":
+				c10RunSlots(c)
+			case "pass":
+				c10RunPass(c)
 			default:
 				c10RunRandom(c)
 			}
